@@ -421,9 +421,12 @@ impl World {
         out
     }
 
+    /// Nonces are unique process-wide: a ledger snapshot (which holds consumed nonces) may be
+    /// installed into a fresh world.
     fn fresh_nonce(&self) -> i64 {
-        let n = self.nonce.get();
-        self.nonce.set(n + 1);
+        static NEXT: std::sync::atomic::AtomicI64 = std::sync::atomic::AtomicI64::new(1);
+        let n = NEXT.fetch_add(1, std::sync::atomic::Ordering::Relaxed);
+        self.nonce.set(n);
         n
     }
 
